@@ -255,4 +255,67 @@ def callGrid : List Case := Id.run do
         i := i + 1
   pure out.reverse
 
+/-! ## errors that are cheap to raise but whose message has to be rendered
+
+Every frame of an evaluation wraps the error with its source context (WrapContextErr), so the message of an error
+raised at the bottom of a deep, non-recursive structure is assembled from many frames.  The harness renders every
+error inside the timed region; these programs fail at once and must also be reportable at once. -/
+
+def joinWith (sep : String) (xs : List String) : String := sep.intercalate xs
+
+/-- (tag, body of the innermost function over x, argument) -/
+def failingLeaves : List (String × String × String) :=
+  [("missing-attr", "x.a", "(b: 1)"), ("bad-call", "x(1)", "5"), ("type-error", "x + 'a'", "{}"),
+   ("stdlib", "//seq.concat(x)", "5"), ("dot-dot", "x.b.c", "(b: 1)"), ("subset", "x (<) 1", "2")]
+
+def errGrid : List Case := Id.run do
+  let mut out : List Case := []
+  let mut i := 0
+  let mk (i : Nat) (stratum src : String) : Case :=
+    { id := s!"C10-err-{i}", cls := "good", kind := "survive", stratum := stratum, model := "ok", spec := "!panic",
+      payload := [src] }
+  for k in [10, 20, 30, 40] do
+    for (tag, body, arg) in failingLeaves do
+      -- k distinct let-bound functions, each calling the previous one
+      let defs := (List.range k).map (fun j => if j == 0 then s!"let f0 = \\x {body};" else s!"let f{j} = \\x f{j - 1}(x);")
+      out := mk i s!"grid/err/chain/{tag}/{k}" (joinWith " " defs ++ s!" f{k - 1}({arg})") :: out
+      -- the same chain through tuple attributes and through two-argument functions
+      let defs2 := (List.range k).map (fun j =>
+        if j == 0 then s!"let t0 = (f: \\x {body});" else s!"let t{j} = (f: \\x t{j - 1}.f(x));")
+      out := mk (i + 1) s!"grid/err/chain-tuple/{tag}/{k}" (joinWith " " defs2 ++ s!" t{k - 1}.f({arg})") :: out
+      i := i + 2
+    let nest (o c inner : String) : String := String.join (List.replicate k o) ++ inner ++ String.join (List.replicate k c)
+    let leaf := "(b: 1).a"
+    let srcs : List (String × String) :=
+      [("arrow", s!"(b: 1) " ++ String.join (List.replicate k "-> (. ") ++ "-> .a" ++ String.join (List.replicate k ")")),
+       ("darrow", "{(b: 1)} " ++ String.join (List.replicate k "=> (\\y {y} ") ++ "=> \\z z.a" ++ String.join (List.replicate k ")")),
+       ("where", "{1} " ++ String.join (List.replicate k "where (\\w {1} ") ++ "where \\v v.a" ++ String.join (List.replicate k ")")),
+       ("seqarrow", "[(b: 1)] " ++ String.join (List.replicate k ">> (\\y [y] ") ++ ">> \\z z.a" ++ String.join (List.replicate k ")")),
+       ("tuple", nest "(a: " ")" leaf), ("array", nest "[" "]" leaf), ("set", nest "{" "}" leaf), ("dict", nest "{1: " "}" leaf),
+       ("paren", nest "(" ")" leaf),
+       ("plus", joinWith " + " (List.replicate k "1") ++ " + " ++ leaf),
+       ("if", String.join (List.replicate k "(1 if true else ") ++ leaf ++ String.join (List.replicate k ")")),
+       ("cond", String.join (List.replicate k "cond {true: ") ++ leaf ++ String.join (List.replicate k "}")),
+       ("let-seq", joinWith " " ((List.range k).map (fun j => if j == 0 then "let x0 = (b: 1);" else s!"let x{j} = x{j - 1};")) ++ s!" x{k - 1}.a")]
+    for (tag, src) in srcs do
+      out := mk i s!"grid/err/nest/{tag}/{k}" src :: out
+      i := i + 1
+    -- immediately applied functions nested in each other's argument: compiling them is exponential in the depth
+    -- (about x3 per level: 3 s at depth 10, 30 s at depth 14) with or without the failing leaf: KF-deep-nesting
+    if k ≤ 10 then
+      out := { mk i s!"grid/err/nest/call/{k}"
+                 (String.join (List.replicate k "(\\x x)(") ++ leaf ++ String.join (List.replicate k ")")) with
+               cls := "KF-deep-nesting" } :: out
+      i := i + 1
+  -- long source texts with the error at the very end
+  for n in [100, 300] do
+    out := mk i s!"grid/err/long/array/{n}" ("[" ++ joinWith ", " ((List.range n).map toString) ++ ", (b: 1).a]") :: out
+    out := mk (i + 1) s!"grid/err/long/lets/{n}"
+      (joinWith " " ((List.range n).map (fun j => s!"let y{j} = {j};")) ++ " (b: 1).a") :: out
+    out := mk (i + 2) s!"grid/err/long/string/{n}" ("'" ++ String.join (List.replicate n "lorem ipsum ") ++ "' + 1") :: out
+    out := mk (i + 3) s!"grid/err/long/tuple/{n}"
+      ("(" ++ joinWith ", " ((List.range n).map (fun j => s!"a{j}: {j}")) ++ ").zz") :: out
+    i := i + 4
+  pure out.reverse
+
 end Arrai.C10
